@@ -108,6 +108,22 @@ type Interp struct {
 	enumCache  map[types.Type][]enumConst
 	CallTrace  []string
 	TraceCalls bool
+
+	// CutAddr: a load from this symbolic address by a function at call depth <= CutDepth stops the
+	// path (Outcome.Cut); deeper loads see ordinary symbolic memory.
+	CutAddr  string
+	CutDepth int
+	// SymLens gives the length of opaque slices by name; index expressions into them are bounds-checked
+	// when index and length are comparable.
+	SymLens map[string]Value
+}
+
+// SetSymLen declares the length of an opaque slice.
+func (in *Interp) SetSymLen(name string, l Value) {
+	if in.SymLens == nil {
+		in.SymLens = map[string]Value{}
+	}
+	in.SymLens[name] = l
 }
 
 type enumConst struct {
@@ -617,6 +633,9 @@ func (in *Interp) load(p Value, t types.Type) Value {
 	switch x := p.(type) {
 	case *Ptr:
 		if x.Obj == nil {
+			if in.CutAddr != "" && x.SymAddr == in.CutAddr && in.depth <= in.CutDepth {
+				panic(&cutSignal{})
+			}
 			if v, ok := in.symMem[x.SymAddr]; ok {
 				if _, cut := v.(CutV); cut {
 					panic(&cutSignal{})
@@ -893,6 +912,9 @@ func (in *Interp) builtin(name string, c *ssa.CallCommon, args []Value, fr *fram
 				return int64(len(a.E))
 			}
 		case *Sym:
+			if l, ok := in.SymLens[x.Name()]; ok && name == "len" {
+				return l
+			}
 			return &Sym{Expr: name + "(" + x.Name() + ")", T: types.Typ[types.Int]}
 		}
 	case "append":
@@ -1723,6 +1745,7 @@ func (in *Interp) indexAddr(x, idx Value, elem types.Type) Value {
 	case NilV:
 		in.Panic(&Sym{Expr: "runtime error: index out of range (nil slice)"})
 	case *Sym:
+		in.boundsCheck(a, idx)
 		return &Ptr{SymAddr: a.Name() + "[" + Show(idx) + "]", T: elem}
 	}
 	in.Undecided("indexaddr of %s", Show(x))
@@ -1889,6 +1912,33 @@ func (in *Interp) typeAssert(x *ssa.TypeAssert, v Value) Value {
 	}
 	in.Undecided("type assertion on %s", Show(v))
 	return nil
+}
+
+// boundsCheck panics like the Go runtime when an index into an opaque slice of declared length is
+// provably out of range.
+func (in *Interp) boundsCheck(a *Sym, idx Value) {
+	l, ok := in.SymLens[a.Name()]
+	if !ok {
+		return
+	}
+	ls, ok1 := l.(*Sym)
+	is, ok2 := idx.(*Sym)
+	if ok1 && ok2 && ls.Expr == is.Expr {
+		if is.Off >= ls.Off {
+			in.Panic(&Sym{Expr: "runtime error: index out of range"})
+		}
+		return
+	}
+	if li, ok := l.(int64); ok {
+		if ii, ok := idx.(int64); ok && (ii < 0 || ii >= li) {
+			in.Panic(&Sym{Expr: "runtime error: index out of range"})
+		}
+	}
+}
+
+// GlobalPtr returns a pointer to a package-level variable (running the package initialiser first).
+func (in *Interp) GlobalPtr(g *ssa.Global) *Ptr {
+	return &Ptr{Obj: in.global(g), T: g.Type().(*types.Pointer).Elem()}
 }
 
 // Load / Store are exported for drivers that build or inspect state.
